@@ -6,7 +6,10 @@ from lib import Case
 
 PROP = "C14"
 DRIVER = "drv-c14"
-PROOF_MODULES = ["TetlProofs.C14.Props"]
+GEN_PROOF_MODULES = ["TetlProofs.C14.GenBits", "TetlProofs.C14.GenMid", "TetlProofs.C14.GenArith", "TetlProofs.C14.GenCmpEq",
+                     "TetlProofs.C14.GenCmpLt", "TetlProofs.C14.GenCmpD1", "TetlProofs.C14.GenCmpD2", "TetlProofs.C14.GenRange",
+                     "TetlProofs.C14.GenSat", "TetlProofs.C14.GenProps"]
+PROOF_MODULES = ["TetlProofs.C14.Props"] + GEN_PROOF_MODULES
 HARNESS = "harness/c14.cpp"
 SOURCES = ["include/etl/_bit", "include/etl/_numeric/add_sat.hpp", "include/etl/_numeric/div_sat.hpp",
            "include/etl/_numeric/saturate_cast.hpp", "include/etl/_numeric/midpoint.hpp",
@@ -490,3 +493,25 @@ THEOREMS = {
     "byteswap": ["C14.Props.byteswap_eq"], "byteswap_fb": ["C14.Props.byteswapFallback_eq"],
     "ntoh": ["C14.Props.ntoh_eq"], "hton": ["C14.Props.hton_eq"], "ipow": ["C14.Props.ipow_eq"],
 }
+
+
+# ---- tie T for the straight-line kernels: regenerated from the clang AST on every run (gen/translate.py, job set
+# BITS_JOBS); TetlProofs/C14/Gen*.lean are re-checked against the regenerated Tetl/C14/Gen.lean, and the driver compares
+# the generated functions with the hand model on every case line (`!gen=`).
+def regenerate(ctx):
+    import os
+    import sys
+    import lib
+    sys.path.insert(0, os.path.join(lib.VERIF, "gen"))
+    import translate
+    out = os.path.join(lib.LEAN, "Tetl", "C14", "Gen.lean")
+    try:
+        info = translate.translate_bits(lib.REPO, out)
+    except translate.Unsupported as e:      # the translation unit itself is refused by clang
+        return {"generated_files": [os.path.relpath(out, lib.VERIF)], "hash": [], "changed": False, "functions": [],
+                "translator": translate.VERSION3, "error": str(e)}
+    res = {"generated_files": [os.path.relpath(out, lib.VERIF)], "hash": [lib.file_hash(out)], "changed": info["changed"],
+           "functions": info["functions"], "translator": info["translator"]}
+    if info["errors"]:
+        res["error"] = "; ".join(info["errors"])
+    return res
